@@ -247,3 +247,15 @@ PROPS["C09"] = {
 NONTRIVIAL["C03"] = lambda r: r.split()[0] == "rsdec" and r.split()[2].strip("0") != ""
 NONTRIVIAL["C09"] = NONTRIVIAL["C03"]
 PROPS["C05"]["gens"] = ["c05d", "c05r"]
+
+PROPS["C04"] = {
+    "lean": [], "gens": ["c04"], "level": "exploration", "release": True,
+    "pregen": {"c04": {"op": "gen-c04", "quick": 30000, "thorough": 600000}},
+    "rule": "cases: data codeword streams built by the independent reference encoder of DM/Spec/Build.lean from random scripts: up to 5 mode runs (ASCII with or without digit packing, C40, Text, X12, EDIFACT, Base256) with explicit UNLATCH or end-of-symbol forms (run ending at the symbol end, single trailing ASCII codeword after C40/Text/X12, <= 2 ASCII codewords after a complete EDIFACT group, Base256 length 0 = to the end, 1- and 2-codeword Base256 lengths), optional Macro 05/06 or FNC1 header, padding to the next real symbol capacity; only scripts on which the reference builder and the reference decoder agree are used; non-trivial = distinct streams with >= 2 codewords",
+    "explanation": "The crate's decode_data must return exactly the bytes the script stands for, for streams its own optimiser would never produce; the Lean model of the decoder is compared on the same streams.",
+    "level_text": "Exploration with an independent reference encoder as stream source; decoder_complete is not yet a theorem.",
+    "level_note": "Trusted: DM/Spec/Build.lean + DM/Spec/Stream.lean as the reading of ISO/IEC 16022 5.2 (a script is used only if both agree), harness.",
+    "technique": "independent reference encoder (Lean) generates legal streams; implementation and Lean decoder model must both return the script's bytes",
+    "assumptions": [],
+}
+NONTRIVIAL["C04"] = lambda r: r.split()[0] == "ddata" and len(r.split()[1]) >= 4
